@@ -18,6 +18,22 @@ import (
 
 const Root = "/verif"
 
+// OutDir is where evidence/ and replays/ are written (VERIF_OUT, default /verif).
+func OutDir() string {
+	if d := os.Getenv("VERIF_OUT"); d != "" {
+		return d
+	}
+	return Root
+}
+
+// Repo is the tree under test (VERIF_REPO, default /repo).
+func Repo() string {
+	if d := os.Getenv("VERIF_REPO"); d != "" {
+		return d
+	}
+	return "/repo"
+}
+
 // Out is the process's real stdout, captured before any harness silences os.Stdout.
 var Out = os.Stdout
 
@@ -123,7 +139,7 @@ func (r *Run) Report(key, what string, replay interface{}) {
 		return
 	}
 	h := sha256.Sum256([]byte(key))
-	dir := filepath.Join(Root, "replays", r.Prop)
+	dir := filepath.Join(OutDir(), "replays", r.Prop)
 	os.MkdirAll(dir, 0o755)
 	p := filepath.Join(dir, hex.EncodeToString(h[:6])+".json")
 	b, _ := json.MarshalIndent(map[string]interface{}{"property": r.Prop, "key": key, "what": what, "replay": replay}, "", " ")
@@ -178,8 +194,8 @@ func (r *Run) Finish(coverage map[string]interface{}, assumptions []string) {
 		"wall_s": float64(int(time.Since(r.start).Seconds()*100)) / 100, "violations": len(vk),
 	}
 	b, _ := json.MarshalIndent(evd, "", " ")
-	os.MkdirAll(filepath.Join(Root, "evidence"), 0o755)
-	if err := os.WriteFile(filepath.Join(Root, "evidence", r.Prop+".json"), append(b, '\n'), 0o644); err != nil {
+	os.MkdirAll(filepath.Join(OutDir(), "evidence"), 0o755)
+	if err := os.WriteFile(filepath.Join(OutDir(), "evidence", r.Prop+".json"), append(b, '\n'), 0o644); err != nil {
 		HarnessError("writing evidence: %v", err)
 	}
 	for _, k := range kh {
